@@ -39,6 +39,8 @@ def _routing_by_scenario(prog, rep, solve, lp_entries, nlp_entries):
     def value(e, env, linear):
         if isinstance(e, ast.Constant):
             return e.value
+        if isinstance(e, ast.Dict) and all(isinstance(k_, ast.Constant) for k_ in e.keys):
+            return ("dict", tuple((k_.value, value(v_, env, linear)) for k_, v_ in zip(e.keys, e.values)))
         if isinstance(e, ast.Name):
             return env.get(e.id, UNK)
         if isinstance(e, ast.IfExp):
@@ -115,7 +117,9 @@ def _routing_by_scenario(prog, rep, solve, lp_entries, nlp_entries):
                 continue
             outcomes = set()
             # a routing decision that hinges on a test the walk could not evaluate is not decided here
-            guessed = sorted({fk for state, term in paths if term != "raise" for fk in state["forks"] if "method" in fk})
+            import re as _re
+            route_locals = {"method"} | {t_.id for st_ in ast.walk(solve.node) if isinstance(st_, (ast.Assign, ast.AnnAssign)) for t_ in (st_.targets if isinstance(st_, ast.Assign) else [st_.target]) if isinstance(t_, ast.Name)}
+            guessed = sorted({fk for state, term in paths if term != "raise" for fk in state["forks"] if any(_re.search(rf"(?<![\w.]){_re.escape(nm)}(?!\w)", fk) for nm in route_locals)})
             if guessed:
                 rep.undecided(f"Problem.solve[{lit}]: the route depends on `{guessed[0]}`, which the walk cannot evaluate")
                 continue
@@ -126,6 +130,11 @@ def _routing_by_scenario(prog, rep, solve, lp_entries, nlp_entries):
                     c = term[1]
                     kw = {k.arg: k.value for k in c.keywords if k.arg}
                     m = value(kw["method"], state["env"], lin) if "method" in kw else None
+                    for k in c.keywords:
+                        if k.arg is None and isinstance(k.value, ast.Name):
+                            dv = state["env"].get(k.value.id)
+                            if isinstance(dv, tuple) and dv and dv[0] == "dict" and "method" not in kw:
+                                m = dict(dv[1]).get("method", m)
                     outcomes.add(("lp" if dotted(c.func) in lp_entries else "nlp", m, c.lineno))
                 else:
                     outcomes.add(("other", src(term[1])[:40] if isinstance(term, tuple) else str(term), 0))
